@@ -86,7 +86,7 @@ func twinMonitor(keys *Keys, h History, ref *Trace, r *rand.Rand) []Failure {
 		for bi, bt := range ref.Blocks {
 			b := bt.Spec
 			if bi == l.b {
-				nb := BlockSpec{Dt: b.Dt, Absent: b.Absent}
+				nb := BlockSpec{Dt: b.Dt, Absent: b.Absent, Evidence: b.Evidence}
 				for ti, t := range b.Txs {
 					if ti != l.t {
 						nb.Txs = append(nb.Txs, t)
